@@ -76,27 +76,21 @@ EXTRA = [
                       zoom_level = ?'''
 
         if self.ttl:""", 'C05.e'),
-    M('M-C05f-revert-D1-mbtiles', MBT, """        if level is None:
-            return True
-
-        return self._get_level(level).load_tiles""", """        if not level:
-            return True
-
-        return self._get_level(level).load_tiles""", 'C05.f', 'revert of fix D1'),
-    M('M-C05f-revert-D1-gpkg', GPKG, """        if level is None:
-            return True
-
-        return self._get_level(level).load_tiles""", """        if not level:
-            return True
-
-        return self._get_level(level).load_tiles""", 'C05.f', 'revert of fix D1'),
-    E('E-C05f-none-is-level', MBT, """        if level is None:
-            return True
-
-        return self._get_level(level).load_tiles""", """        if None is level:
-            return True
-
-        return self._get_level(level).load_tiles""", 'operand order of the None test'),
+    M('M-C05f-revert-D1-mbtiles', MBT, """        for level in level_tiles:
+            if not self._get_level(level).load_tiles(""", """        for level in level_tiles:
+            if not level:
+                continue
+            if not self._get_level(level).load_tiles(""", 'C05.f', 'the mechanism of D1 (level 0 is "no level") in the grouped bulk load'),
+    M('M-C05f-revert-D1-gpkg', GPKG, """        for level in level_tiles:
+            if not self._get_level(level).load_tiles(""", """        for level in level_tiles:
+            if not level:
+                continue
+            if not self._get_level(level).load_tiles(""", 'C05.f', 'the mechanism of D1 (level 0 is "no level") in the grouped bulk load'),
+    E('E-C05f-none-is-level', MBT, """        for level in level_tiles:
+            if not self._get_level(level).load_tiles(""", """        for level in level_tiles:
+            if level is None:
+                continue
+            if not self._get_level(level).load_tiles(""", 'a None test on the level is not a truthiness test'),
     M('M-C05g-no-dimensions', MBT, 'def remove_tile(self, tile, dimensions=None):\n        cursor = self.db.cursor()',
       'def remove_tile(self, tile):\n        cursor = self.db.cursor()', 'C05.g'),
     E('E-C05h-lexists', FILE, 'if os.path.exists(tile_loc) or os.path.islink(tile_loc):',
@@ -385,19 +379,21 @@ EXTRA = [
       """            lambda k: k + "-" + str(dims.get(k, 'default')), dim_keys)))""", 'C09.d', 'revert of fix D2'),
     M('M-C09d-values-only', 'mapproxy/cache/path.py', """            lambda k: _dimension_dirname(k) + "-" + _dimension_dirname(dims.get(k, 'default')), dim_keys)))""",
       """            lambda k: k + "-" + _dimension_dirname(dims.get(k, 'default')), dim_keys)))""", 'C09.d', 'keys unsanitised'),
-    M('M-C09d-sanitiser-forward-slash-only', 'mapproxy/cache/path.py', "for sep in ('/', '\\\\', os.sep, os.altsep):",
-      "for sep in ('/', os.altsep):", 'C09.d'),
-    E('E-C09d-resub-whitelist', 'mapproxy/cache/path.py', """    value = str(value)
-    for sep in ('/', '\\\\', os.sep, os.altsep):
-        if sep:
-            value = value.replace(sep, '_')
+    M('M-C09d-sanitiser-forward-slash-only', 'mapproxy/cache/path.py', "for sep, escaped in (('/', '%2F'), ('\\\\', '%5C')):",
+      "for sep, escaped in (('/', '%2F'),):", 'C09.d'),
+    E('E-C09d-resub-whitelist', 'mapproxy/cache/path.py', """    value = str(value).replace('%', '%25')
+    for sep, escaped in (('/', '%2F'), ('\\\\', '%5C')):
+        value = value.replace(sep, escaped)
     return value""", """    import re
-    return re.sub(r'[^A-Za-z0-9_.:+-]', '_', str(value))""", 're.sub with a negated whitelist'),
-    E('E-C09d-replace-chain', 'mapproxy/cache/path.py', """    value = str(value)
-    for sep in ('/', '\\\\', os.sep, os.altsep):
-        if sep:
-            value = value.replace(sep, '_')
-    return value""", """    return str(value).replace('/', '_').replace('\\\\', '_')""", 'replace chain'),
+    return re.sub(r'[^A-Za-z0-9_.:+-]', '_', str(value))""", 're.sub with a negated whitelist: safe as a path (C09), not injective (C05.p reports it)', props=['C09']),
+    E('E-C09d-replace-chain', 'mapproxy/cache/path.py', """    value = str(value).replace('%', '%25')
+    for sep, escaped in (('/', '%2F'), ('\\\\', '%5C')):
+        value = value.replace(sep, escaped)
+    return value""", """    return str(value).replace('/', '_').replace('\\\\', '_')""", 'replace chain: safe as a path (C09), not injective (C05.p reports it)', props=['C09']),
+    E('E-C05p-chain-spelling', 'mapproxy/cache/path.py', """    value = str(value).replace('%', '%25')
+    for sep, escaped in (('/', '%2F'), ('\\\\', '%5C')):
+        value = value.replace(sep, escaped)
+    return value""", """    return str(value).replace('%', '%25').replace('/', '%2F').replace('\\\\', '%5C')""", 'the same escape scheme as one chain'),
     M('M-C09e-unvalidated-dimensions', 'mapproxy/service/tile.py', """                tile = self.tile_manager.load_tile_coord(tile_coord,
                                                          dimensions=dimensions, with_metadata=True)
             if tile.source is None:
@@ -762,8 +758,8 @@ EXTRA = [
             bg = create_image(size, image_opts)""", """        # apply global clip coverage
         if coverage and len(self.layers) > 1:
             bg = create_image(size, image_opts)""", 'C10.d'),
-    E('E-C10d-demorgan-fastpath', 'mapproxy/image/merge.py', "                and (not layer_coverage or not layer_coverage.clip)\n                    and not coverage):",
-      "                and not (layer_coverage and layer_coverage.clip)\n                    and not coverage):", 'De Morgan'),
+    E('E-C10d-demorgan-fastpath', 'mapproxy/image/merge.py', "                and (not layer_coverage or not layer_coverage.clip)\n                and (not layer_opts",
+      "                and not (layer_coverage and layer_coverage.clip)\n                and (not layer_opts", 'De Morgan'),
     M('M-C10e-flag-false', 'mapproxy/service/tile.py', """            elif coverage.intersects(tile_bbox, self.grid.srs):
                 coverage_intersects = True
             else:
@@ -970,8 +966,9 @@ EXTRA = [
             return None
         doc = self.client.get_info(query)""", """        doc = self.client.get_info(query)""", 'C17.a'),
     M('M-C17b-preferred-first', 'mapproxy/srs.py', """            for preferred in self.target_proj[target]:
-                if preferred in available_src:
-                    return preferred""", """            for preferred in self.target_proj[target]:
+                for avail in available_src:
+                    if avail == preferred:
+                        return avail""", """            for preferred in self.target_proj[target]:
                 return preferred""", 'C17.b'),
     M('M-C17b-unsupported-direct', 'mapproxy/source/wms.py', """            if request_srs is None:
                 return self._get_transformed(query, format)""", """            if request_srs is None:
@@ -995,11 +992,13 @@ EXTRA = [
     E('E-C14a-nested-ifs', 'mapproxy/image/merge.py', """            if (((layer_opts and not layer_opts.transparent) or image_opts.transparent)
                 and (not size or size == layer_img.size)
                 and (not layer_coverage or not layer_coverage.clip)
+                and (not layer_opts or layer_opts.opacity is None or layer_opts.opacity >= 1.0)
                     and not coverage):
                 # layer is opaque, no need to make transparent or add bgcolor
                 return layer_img""", """            if not coverage and (not layer_coverage or not layer_coverage.clip):
                 if ((layer_opts and not layer_opts.transparent) or image_opts.transparent) \\
-                        and (not size or size == layer_img.size):
+                        and (not size or size == layer_img.size) \\
+                        and (not layer_opts or layer_opts.opacity is None or layer_opts.opacity >= 1.0):
                     # layer is opaque, no need to make transparent or add bgcolor
                     return layer_img""", 'nested ifs'),
     M('M-C14b-opaque-transparent', 'mapproxy/source/wms.py', """        if self.image_opts.transparent:
@@ -1019,9 +1018,9 @@ EXTRA = [
     E('E-C14b-reordered-tests', 'mapproxy/source/wms.py', """        if self.image_opts.transparent:
             return False
 
-        if self.opacity is not None and (0.0 < self.opacity < 0.99):
+        if self.opacity is not None and self.opacity < 0.99:
             return False
-""", """        if self.opacity is not None and (0.0 < self.opacity < 0.99):
+""", """        if self.opacity is not None and self.opacity < 0.99:
             return False
 
         if self.image_opts.transparent:
@@ -1086,7 +1085,10 @@ EXTRA = [
       "            value = value.replace('\\r', '').replace('\\n', '')\n", 'CR and LF removed by replace()'),
     M('M-C18l-revert-D17', 'mapproxy/request/wms/exception.py', "return Response(result.as_buffer(), content_type=content_type)",
       "return Response(result.as_buffer(), content_type=params.format_mime_type)", 'C18.l', 'revert of fix D17'),
-    M('M-C18i-revert-D14', 'mapproxy/cache/tile.py', "                t.source.image_opts = self.image_opts\n", "                pass\n", 'C18.i', 'revert of fix D14'),
+    M('M-C18i-revert-D14', 'mapproxy/cache/tile.py', "        for t in tiles:\n            if t.source is not None and getattr(t.source, 'image_opts', False) is None:\n                t.source.image_opts = self.image_opts\n",
+      "        for t in tiles:\n            if t.source is not None and getattr(t.source, 'image_opts', False) is None:\n                pass\n", 'C18.i', 'revert of fix D14'),
+    M('M-C18i-late-tiles-unlabelled', 'mapproxy/cache/tile.py', "            for t in late_tiles:\n                if t.source is not None and getattr(t.source, 'image_opts', False) is None:\n                    t.source.image_opts = self.image_opts\n",
+      "", 'C18.i', 'tiles loaded late (fix D29) carry no image options'),
     M('M-C20f-revert-D13', 'mapproxy/cache/tile.py', "                    tiles[created_tile.coord].cacheable = bool(created_tile.cacheable)\n", "", 'C20.f', 'revert of fix D13'),
     M('M-C18c-code-from-request', 'mapproxy/service/wms.py', """            raise RequestError('unknown layer: ' + request.params.layer,
                                code='LayerNotDefined', request=request)""", """            raise RequestError('unknown layer: ' + request.params.layer,
@@ -1490,10 +1492,9 @@ def switch_bbox_epsg_axis_order""", 'C01.a'),
     M('M-C05p-revert-D30', 'mapproxy/cache/path.py', """    value = str(value).replace('%', '%25')
     for sep, escaped in (('/', '%2F'), ('\\\\', '%5C')):
         value = value.replace(sep, escaped)
-    return value""", """    value = str(value)
-    for sep in ('/', '\\\\', os.sep, os.altsep):
-        if sep:
-            value = value.replace(sep, '_')
+    return value""", """    value = str(value).replace('%', '%25')
+    for sep, escaped in (('/', '%2F'), ('\\\\', '%5C')):
+        value = value.replace(sep, escaped)
     return value""", 'C05.p', 'revert of fix D30'),
     M('M-C05p-escape-char-not-first', 'mapproxy/cache/path.py', """    value = str(value).replace('%', '%25')
     for sep, escaped in (('/', '%2F'), ('\\\\', '%5C')):
